@@ -3,6 +3,7 @@ package main
 import (
 	"fmt"
 	"go/ast"
+	"go/token"
 	"go/types"
 	"sort"
 	"strings"
@@ -30,7 +31,7 @@ func runC03(r *Run) {
 	r.rule("C03.R6", "EndBlock order: the hold-releasing module precedes the delegation module", 1)
 	r.rule("C03.R7", "pending aggregates move with the record (C01 delta obligations of the exit path)", 4)
 	r.rule("C03.R8", "a pending record modified through an iterator helper is always written back; the share-zeroing after a full slash touches only the undelegatable share (pending amounts survive)", 3)
-	r.rule("C03.R9", "an undelegation is never rejected because of the operator's opt-out state (C16.R6 obligation); a record slashed to zero is still released", 2)
+	r.rule("C03.R9", "an undelegation is never rejected because of the operator's opt-out state (C16.R6 obligation); a record slashed to zero is still released; every queued release of an epoch is carried out", 3)
 	// a record whose amount was slashed to zero is still released: the native-token credit builds its coins with
 	// sdk.NewCoins, which drops a zero coin (a Coins literal with a zero coin is invalid and makes the bank call
 	// fail, after which EndBlock skips the record for good), or the credit is guarded by a positivity test
@@ -82,6 +83,36 @@ func runC03(r *Run) {
 		}
 	}
 	iteratorVisitsAllRule(r, "C03.R8", map[string]bool{"x/delegation/keeper.Keeper.IterateDelegations": true})
+	// every queued item of the epoch is handled: the release loops of the dogfood EndBlock (holds, opt-outs, keys
+	// to prune) are never left early - the list is cleared right after, so whatever a break skips is lost
+	if dv := w.View("x/dogfood/keeper", "Keeper.EndBlock"); dv == nil {
+		r.bad("C03.R9", "release|every-queued-item|anchor", "-", "anchor", "dogfood EndBlock not found")
+	} else {
+		nLoops := 0
+		var exits []string
+		ast.Inspect(dv.Decl.Body, func(n ast.Node) bool {
+			rs, isR := n.(*ast.RangeStmt)
+			if !isR || !strings.HasSuffix(exprString(rs.X), ".GetList()") {
+				return true
+			}
+			nLoops++
+			ast.Inspect(rs.Body, func(m ast.Node) bool {
+				switch x := m.(type) {
+				case *ast.FuncLit:
+					return false
+				case *ast.BranchStmt:
+					if x.Tok == token.BREAK || x.Tok == token.GOTO {
+						exits = append(exits, x.Tok.String()+" at "+dv.pos(x))
+					}
+				case *ast.ReturnStmt:
+					exits = append(exits, "return at "+dv.pos(x))
+				}
+				return true
+			})
+			return true
+		})
+		r.check(nLoops >= 3 && len(exits) == 0, "C03.R9", "release|every-queued-item", dv.pos(dv.Decl), "the three release loops of the dogfood EndBlock visit every queued item", fmt.Sprintf("dogfood EndBlock leaves a release loop early (%s; %d loops over queued lists found): the items behind that point keep their hold (or stay opting out) although the queue is cleared right after", strings.Join(exits, ", "), nLoops))
+	}
 	iteratorWriteBackRule(r, "C03.R8", map[string]bool{"IterateUndelegationsByStakerAndAsset": true, "IterateUndelegationsByOperator": true})
 	shareZeroingRule(r, "C03.R8")
 
